@@ -454,7 +454,8 @@ func runC08(c *c08Case) (v *vcommon.Violation, nontrivial, inconclusive bool) {
 				}
 			})
 			leaseRes := make(chan vRes, 1)
-			go func() { leaseRes <- pc.lease(ctx, key, tok, 150) }()
+			// (a long lease: the holder's own Unlock, which follows it, must still find the lock on a slow machine)
+			go func() { leaseRes <- pc.lease(ctx, key, tok, 5000) }()
 			select {
 			case <-inLease:
 			case <-time.After(2 * time.Second):
